@@ -29,6 +29,23 @@ var c16PRF = probe.Define("C16", "prf-prime", func(t *rapid.T) c16In {
 		return gen.Len(t, label, 0, 64, 0, 1, 15, 16, 17, 32, 63, 64)
 	}
 	in := c16In{IK: gen.Fill(t, "ik", keyLen("iklen")), CK: gen.Fill(t, "ck", keyLen("cklen"))}
+	// keys RELATED to each other: IK' ending in CK' (IK' = X|CK'), CK' beginning with IK', one a repetition of the other's octet
+	switch rapid.IntRange(0, 11).Draw(t, "keyrelation") {
+	case 8:
+		if len(in.IK)+len(in.CK) <= 64 {
+			in.IK = append(append(model.Bytes(nil), in.IK...), in.CK...)
+		}
+	case 9:
+		if len(in.IK)+len(in.CK) <= 64 {
+			in.CK = append(append(model.Bytes(nil), in.IK...), in.CK...)
+		}
+	case 10:
+		in.IK, in.CK = bytesRepeat(0xaa, 17), bytesRepeat(0xaa, 16)
+	case 11:
+		if len(in.CK) > 1 {
+			in.IK = append(model.Bytes(nil), in.CK[1:]...)
+		}
+	}
 	switch gen.Pick(t, "idclass", 4, 3, 1, 1, 3) {
 	case 0:
 		in.Identity = rapid.SliceOfN(rapid.Byte(), 0, 40).Draw(t, "id")
@@ -49,6 +66,15 @@ var c16PRF = probe.Define("C16", "prf-prime", func(t *rapid.T) c16In {
 	err := probe.Try(func() error {
 		var e error
 		ik, ck := append([]byte(nil), in.IK...), append([]byte(nil), in.CK...)
+		if len(in.Identity)%2 == 1 {
+			// no octets as an empty, non-nil slice (what trimming or slicing leaves) instead of nil
+			if len(ik) == 0 {
+				ik = make([]byte, 0, 4)
+			}
+			if len(ck) == 0 {
+				ck = make([]byte, 0, 4)
+			}
+		}
 		if carved {
 			// IK' and CK' as the caller got them from the AKA functions: back to back in one buffer
 			var v [][]byte
@@ -149,3 +175,5 @@ func TestC16(t *testing.T) {
 	}
 	c16PRF.Run(c, t, c.N(5000, 60000))
 }
+
+func bytesRepeat(b byte, n int) model.Bytes { return bytes.Repeat([]byte{b}, n) }
